@@ -1,5 +1,8 @@
 import PycsepVerif.GeneratedSrc
 import PycsepVerif.Model.PairedTests
+import PycsepVerif.Model.PairedPub
+import PycsepVerif.Proofs.RealInst
+import PycsepVerif.Proofs.Soft64Round
 /-!
 # Source tie of C08: `_t_test_ndarray` generated from the Python source equals the hand model (Model/PairedTests.lean)
 
@@ -29,5 +32,184 @@ theorem tTest_eq_src (ppf : α → α → α) (rA rB : List α) (N : Nat) (NA NB
     let o := tTest rA rB N NA NB (ppf (sub one (div alpha (ofNat 2))) (sub (ofNat N) one))
     r = (o.t, ppf (sub one (div alpha (ofNat 2))) (sub (ofNat N) one), o.ig, o.lower, o.upper) := by
   simp only [t_test_ndarray_eq_model, tTest]
+
+/-! ## the public wrapper `paired_t_test` (poisson_evaluations.py:14): backward slice of what it stores in the result
+
+The two forecasts and the catalog are read only through `target_event_rates(observed_catalog, scale=scale)` (parameters
+`ter1`, `ter2` : rates of the target events and forecast total) and `observed_catalog.event_count`. The generated
+definition returns `(result.test_distribution, result.observed_statistic, result.quantile)`. -/
+
+theorem paired_t_test_eq_model (ppf : α → α → α) (alpha : α) (ter1 ter2 : List α × α) (nObs : Nat) :
+    Src.paired_t_test ppf alpha ter1 ter2 nObs =
+      let tc := ppf (sub one (div alpha (ofNat 2))) (sub (ofNat nObs) one)
+      let o := tTest ter1.1 ter2.1 nObs ter1.2 ter2.2 tc
+      ((o.lower, o.upper), o.ig, (o.t, tc)) := by
+  simp only [Src.paired_t_test, t_test_ndarray_eq_model, tTest]
+
+/-- with forecast objects `fa`, `fb` and the events' flat bin indices `ev`: the model's public paired T-test -/
+theorem paired_t_test_eq_pub (ppf : α → α → α) (alpha : α) (fa fb : Fc α) (ev : List Nat) (scale : Bool) :
+    Src.paired_t_test ppf alpha (fa.targetRates ev scale) (fb.targetRates ev scale) ev.length =
+      let tc := ppf (sub one (div alpha (ofNat 2))) (sub (ofNat ev.length) one)
+      let o := pairedTPub fa fb ev scale tc
+      ((o.lower, o.upper), o.ig, (o.t, tc)) := by
+  simp only [paired_t_test_eq_model, pairedTPub]
+
+/-! ## `matrix_binary_t_test` (binomial_evaluations.py:302): the binary T-test core
+
+`catalog` is read only through `catalog.spatial_magnitude_counts()`, the count array `counts`; `N` is the number of its
+non-zero entries (`len(numpy.unique(numpy.nonzero(counts.ravel())))`). `N - 1`, `N**2 - N` are computed on Python ints and
+converted afterwards, the model computes them in the number type: the equality is over ℝ. -/
+
+theorem nonzeroIdxFrom_lb (k : Nat) (l : List Nat) : ∀ i ∈ Py.nonzeroIdxFrom k l, k ≤ i := by
+  induction l generalizing k with
+  | nil => simp [Py.nonzeroIdxFrom]
+  | cons x xs ih =>
+    intro i hi
+    unfold Py.nonzeroIdxFrom at hi
+    split at hi
+    · rcases List.mem_cons.mp hi with h | h
+      · omega
+      · have := ih (k + 1) i h; omega
+    · have := ih (k + 1) i hi; omega
+
+theorem insertUniq_lt (a : Nat) (l : List Nat) (h : ∀ i ∈ l, a < i) : Py.insertUniq a l = a :: l := by
+  cases l with
+  | nil => rfl
+  | cons b l => simp [Py.insertUniq, h b (by simp)]
+
+/-- `numpy.unique` changes nothing on the (strictly ascending) index array `numpy.nonzero` returns -/
+theorem np_unique_nonzeroIdxFrom (k : Nat) (l : List Nat) :
+    Py.np_unique (Py.nonzeroIdxFrom k l) = Py.nonzeroIdxFrom k l := by
+  induction l generalizing k with
+  | nil => simp [Py.nonzeroIdxFrom, Py.np_unique]
+  | cons x xs ih =>
+    unfold Py.nonzeroIdxFrom
+    split
+    · have := ih (k + 1)
+      unfold Py.np_unique at this ⊢
+      rw [List.foldr_cons, this]
+      exact insertUniq_lt _ _ (fun i hi => by have := nonzeroIdxFrom_lb (k + 1) xs i hi; omega)
+    · exact ih (k + 1)
+
+/-- the number of active bins -/
+def activeCount (counts : List Nat) : Nat := (Py.nonzeroIdx counts).length
+
+theorem matrix_binary_t_test_eq_model (ppf : ℝ → ℝ → ℝ) (rA rB : List ℝ) (nObs NA NB alpha : ℝ) (counts : List Nat) :
+    Src.matrix_binary_t_test ppf rA rB nObs NA NB alpha counts =
+      let N : ℝ := ofNat (activeCount counts)
+      (tStat rA rB N NA NB, ppf (sub one (div alpha (ofNat 2))) (sub N one), infoGain rA rB N NA NB,
+       igLower rA rB N NA NB (ppf (sub one (div alpha (ofNat 2))) (sub N one)),
+       igUpper rA rB N NA NB (ppf (sub one (div alpha (ofNat 2))) (sub N one))) := by
+  have hN : Py.size (Py.np_unique (Py.nonzeroIdx counts)) = ((activeCount counts : Nat) : Int) := by
+    simp [Py.size, Py.nonzeroIdx, np_unique_nonzeroIdxFrom, activeCount]
+  have c0 : (Py.rOfInt ((activeCount counts : Nat) : Int) : ℝ) = (activeCount counts : ℝ) := by
+    simp [Py.rOfInt]
+  have c1 : (Py.rOfInt (((activeCount counts : Nat) : Int) - 1) : ℝ) = (activeCount counts : ℝ) - 1 := by
+    rcases Nat.eq_zero_or_pos (activeCount counts) with h | h
+    · rw [h]; norm_num [Py.rOfInt]
+    · have hnn : (0 : Int) ≤ ((activeCount counts : Nat) : Int) - 1 := by omega
+      unfold Py.rOfInt
+      simp only [hnn, if_true, real_ofNat]
+      rw [← Int.cast_natCast, Int.toNat_of_nonneg hnn]; push_cast; ring
+  have c2 : (Py.rOfInt (Py.ipow ((activeCount counts : Nat) : Int) 2 - ((activeCount counts : Nat) : Int)) : ℝ)
+      = (activeCount counts : ℝ) * (activeCount counts : ℝ) - (activeCount counts : ℝ) := by
+    have hnn : (0 : Int) ≤ Py.ipow ((activeCount counts : Nat) : Int) 2 - ((activeCount counts : Nat) : Int) := by
+      have h1 : activeCount counts ≤ activeCount counts ^ 2 := Nat.le_self_pow (by norm_num) _
+      have h2 : ((activeCount counts : Nat) : Int) ≤ ((activeCount counts : Nat) : Int) ^ 2 := by exact_mod_cast h1
+      have h3 : (2 : Int).toNat = 2 := rfl
+      simp only [Py.ipow, h3]; omega
+    unfold Py.rOfInt
+    simp only [hnn, if_true, real_ofNat]
+    have h3 : (2 : Int).toNat = 2 := rfl
+    rw [← Int.cast_natCast, Int.toNat_of_nonneg hnn]; simp only [Py.ipow, h3]; push_cast; ring
+  simp only [Src.matrix_binary_t_test, hN, c0, c1, c2, logDiffs_eq, Py.rsum, Py.rsq]
+  simp only [tStat, infoGain, igLower, igUpper, variance, real_ofNat, real_sub, real_mul, real_one]
+  rfl
+
+theorem nonzeroIdxFrom_map_range' (f : Nat → Nat) (n k : Nat) :
+    Py.nonzeroIdxFrom k ((List.range' k n).map f) = (List.range' k n).filter (fun i => f i != 0) := by
+  induction n generalizing k with
+  | zero => simp [Py.nonzeroIdxFrom]
+  | succ n ih =>
+    simp only [List.range'_succ, List.map_cons, Py.nonzeroIdxFrom, List.filter_cons, ih (k + 1)]
+    by_cases h : f k = 0 <;> simp [h]
+
+/-- with `counts[i]` = the number of events in flat bin `i`, `numpy.nonzero(counts)` is the model's `activeBins` -/
+theorem nonzeroIdx_counts (nb : Nat) (ev : List Nat) :
+    Py.nonzeroIdx ((List.range nb).map (fun i => ev.count i)) = activeBins nb ev := by
+  simp only [Py.nonzeroIdx, activeBins, List.range_eq_range', nonzeroIdxFrom_map_range']
+
+/-- the model's `binaryT` (binary_paired_t_test on the active bins) in terms of the generated definition -/
+theorem binaryT_eq_src (ppf : ℝ → ℝ → ℝ) (dataA dataB : Nat → ℝ) (nb : Nat) (ev : List Nat) (nObs NA NB alpha : ℝ) :
+    let act := activeBins nb ev
+    let tc := ppf (sub one (div alpha (ofNat 2))) (sub (ofNat act.length) one)
+    let o := binaryT dataA dataB nb ev NA NB tc
+    Src.matrix_binary_t_test ppf (act.map dataA) (act.map dataB) nObs NA NB alpha ((List.range nb).map (fun i => ev.count i))
+      = (o.t, tc, o.ig, o.lower, o.upper) := by
+  simp only [matrix_binary_t_test_eq_model, activeCount, nonzeroIdx_counts, binaryT, tTest]
+
+/-! ## the public wrapper `binary_paired_t_test` (binomial_evaluations.py:360)
+
+Read through: `target_event_rates(observed_catalog, scale=scale)` of both forecasts (only the totals are used), `forecast.data`
+/ `benchmark_forecast.data` (row-major flattening), `observed_catalog.spatial_magnitude_counts()` (flattened counts) and
+`observed_catalog.event_count`. Returns `(result.test_distribution, result.observed_statistic, result.quantile)`. -/
+
+theorem binary_paired_t_test_eq_model (ppf : ℝ → ℝ → ℝ) (alpha : ℝ) (ter1 ter2 : List ℝ × ℝ) (data1 data2 : List ℝ)
+    (counts : List Nat) (nObs : Nat) :
+    Src.binary_paired_t_test ppf alpha ter1 ter2 data1 data2 counts nObs =
+      let act := Py.nonzeroIdx counts
+      let tc := ppf (sub one (div alpha (ofNat 2))) (sub (ofNat act.length) one)
+      let o := tTest (Py.gather data1 act) (Py.gather data2 act) act.length ter1.2 ter2.2 tc
+      ((o.lower, o.upper), o.ig, (o.t, tc)) := by
+  simp only [Src.binary_paired_t_test, matrix_binary_t_test_eq_model, activeCount, tTest, Py.nonzeroIdx,
+    np_unique_nonzeroIdxFrom]
+
+theorem gather_eq_map (l : List ℝ) (idx : List Nat) (h : ∀ i ∈ idx, i < l.length) :
+    Py.gather l idx = idx.map (fun i => l.getD i zero) := by
+  induction idx with
+  | nil => rfl
+  | cons a t ih =>
+    have ha : a < l.length := h a (by simp)
+    have := ih (fun i hi => h i (by simp [hi]))
+    simp only [Py.gather] at this ⊢
+    simp [List.getElem?_eq_getElem ha, this, List.getD_eq_getElem?_getD]
+
+/-- with forecast objects whose data covers the `nb` space-magnitude bins: the model's public binary paired T-test -/
+theorem binary_paired_t_test_eq_pub (ppf : ℝ → ℝ → ℝ) (alpha : ℝ) (fa fb : Fc ℝ) (nb : Nat) (ev : List Nat) (scale : Bool)
+    (ha : nb ≤ fa.data.length) (hb : nb ≤ fb.data.length) :
+    Src.binary_paired_t_test ppf alpha (fa.targetRates ev scale) (fb.targetRates ev scale) fa.data fb.data
+        ((List.range nb).map (fun i => ev.count i)) ev.length =
+      let tc := ppf (sub one (div alpha (ofNat 2))) (sub (ofNat (activeBins nb ev).length) one)
+      let o := binaryTPub fa fb nb ev scale tc
+      ((o.lower, o.upper), o.ig, (o.t, tc)) := by
+  have hact : ∀ i ∈ activeBins nb ev, i < nb := by
+    intro i hi
+    have := (List.mem_filter.mp hi).1
+    exact List.mem_range.mp this
+  rw [binary_paired_t_test_eq_model, nonzeroIdx_counts]
+  simp only [gather_eq_map _ _ (fun i hi => lt_of_lt_of_le (hact i hi) ha),
+    gather_eq_map _ _ (fun i hi => lt_of_lt_of_le (hact i hi) hb), binaryTPub, binaryT]
+
+/-! ## the public wrapper `w_test` (poisson_evaluations.py:58) up to the call of `_w_test_ndarray`
+
+Backward slice of the two arguments `(x, median_value)` in float64: `x = log(rates1) - log(rates2)` (element-wise, `numpy.log`
+an opaque function: its doubles are the model's `LA`, `LB`), `median_value = (N1 - N2) / N` with the forecast totals taken from
+`.event_count` (NOT from `target_event_rates`, so never divided by the days). `_w_test_ndarray` itself is not translated
+(notes/SourceTie.md); with these inputs the model's `wStatsPub` is `wStats x median_value` by definition. -/
+
+theorem w_test_inputs_eq_model (lg : Rat → Rat) (ter1 ter2 : List Rat × Rat) (nObs : Nat) (n1 n2 : Rat)
+    (h : (nObs : Int) ≤ 2 ^ 53) :
+    Src.w_test_inputs lg ter1 ter2 nObs n1 n2 = (wX (ter1.1.map lg) (ter2.1.map lg), wM n1 n2 (nObs : Rat)) := by
+  have hi : Py.i2f ((nObs : Nat) : Int) = (nObs : Rat) := by
+    have : |(nObs : Int)| ≤ 2 ^ 53 := by rw [abs_le]; constructor <;> omega
+    unfold Py.i2f
+    simpa using (Soft64R.fl64_intCast this)
+  simp only [Src.w_test_inputs, hi, wX, wM]
+
+/-- the statistics the model computes for the public W-test are those of the generated inputs -/
+theorem wStatsPub_eq_src (lg : Rat → Rat) (ter1 ter2 : List Rat × Rat) (nObs : Nat) (n1 n2 : Rat) (h : (nObs : Int) ≤ 2 ^ 53) :
+    wStatsPub (ter1.1.map lg) (ter2.1.map lg) n1 n2 (nObs : Rat)
+      = wStats (Src.w_test_inputs lg ter1 ter2 nObs n1 n2).1 (Src.w_test_inputs lg ter1 ter2 nObs n1 n2).2 := by
+  rw [w_test_inputs_eq_model lg ter1 ter2 nObs n1 n2 h]; rfl
 
 end Src
